@@ -157,7 +157,7 @@ def int_list(draw, lo, hi, size):
 def draw_md_frames(draw, n, n_atoms):
     spec = []
     for i in range(n):
-        if i > 0 and draw(st.integers(0, 3)) == 0:
+        if i > 0 and draw(st.sampled_from([True, False, False])):
             spec.append(["copy", draw(st.integers(0, i - 1)), int_list(draw, -5, 5, 3), draw(st.integers(0, 1))])
         else:
             spec.append(["new", int_list(draw, -3, 3, 3 * n_atoms)])
@@ -184,7 +184,7 @@ ARRAY_METRICS = ["euclidean", "manhattan", "cityblock", "chebyshev_py", "discret
 
 @st.composite
 def assign_case(draw, max_frames=12, max_centers=16, max_feat=4, md_share=4):
-    kind = "md" if draw(st.integers(0, md_share - 1)) == 0 else "array"
+    kind = draw(st.sampled_from(["md"] + ["array"] * (md_share - 1)))
     regime, n, k = draw(regime_sizes(max_frames, max_centers))
     if kind == "array":
         f = draw(st.integers(1, max_feat))
@@ -192,7 +192,7 @@ def assign_case(draw, max_frames=12, max_centers=16, max_feat=4, md_share=4):
         metric = draw(st.sampled_from(ARRAY_METRICS))
         dtype = draw(st.sampled_from(["float64", "float64", "float32", "int32", "int64"]))
         jitter = None
-        if dtype.startswith("float") and draw(st.integers(0, 3)) == 0:
+        if dtype.startswith("float") and draw(st.sampled_from([True, False, False, False])):
             jitter = draw(st.integers(0, 10 ** 6))
         return {"kind": "array", "regime": regime, "metric": metric, "dtype": dtype,
                 "scale": draw(st.sampled_from([1.0, 0.5, 0.25])), "jitter_seed": jitter,
@@ -333,7 +333,7 @@ def run_assign(case):
 @st.composite
 def predict_case(draw, max_train=14, max_new=10):
     est = draw(st.sampled_from(["kcenters", "kcenters", "khybrid", "kmedoids"]))
-    kind = "md" if (est == "kcenters" and draw(st.integers(0, 4)) == 0) else "array"
+    kind = "md" if (est == "kcenters" and draw(st.sampled_from([True, False, False, False]))) else "array"
     n = draw(st.integers(2, max_train))
     m = draw(st.integers(1, max_new))
     seed = draw(st.integers(0, 2 ** 31 - 1))
@@ -359,7 +359,7 @@ def predict_case(draw, max_train=14, max_new=10):
     train = [int_list(draw, lo, hi, f) for _ in range(n)]
     new = []
     for _ in range(m):
-        if draw(st.integers(0, 2)) == 0:
+        if draw(st.sampled_from([True, False, False])):
             new.append(list(train[draw(st.integers(0, n - 1))]))
         else:
             new.append(int_list(draw, lo, hi, f))
@@ -381,7 +381,7 @@ def predict_case(draw, max_train=14, max_new=10):
         case["radius"] = draw(st.sampled_from([0.5, 1.0, 2.0, 3.0])) * scale
     if est == "khybrid":
         case["n_iters"] = draw(st.integers(0, 2))
-    elif stop == "n" and len(distinct) >= 2 and draw(st.integers(0, 2)) == 0:
+    elif stop == "n" and len(distinct) >= 2 and draw(st.booleans()):
         # warm k-centers: init centers leave at least one point uncovered and one more center is requested
         k0 = draw(st.integers(1, min(len(distinct) - 1, 4)))
         chosen = draw(st.permutations(range(len(distinct))))[:k0]
@@ -497,7 +497,10 @@ def run_predict(case):
 def find_case(draw, max_n=20):
     n = draw(st.integers(1, max_n))
     nlab = draw(st.integers(1, 5))
-    labset = draw(st.lists(st.integers(0, 12), min_size=nlab, max_size=nlab, unique=True))
+    if draw(st.sampled_from([True, False, False])):
+        labset = list(range(nlab))
+    else:
+        labset = draw(st.lists(st.integers(0, 12), min_size=nlab, max_size=nlab, unique=True))
     labels = [labset[draw(st.integers(0, nlab - 1))] for _ in range(n)]
     mode = draw(st.sampled_from(["grid", "grid", "tenths", "seeded"]))
     if mode == "grid":
@@ -508,7 +511,7 @@ def find_case(draw, max_n=20):
         dists = np.random.RandomState(draw(st.integers(0, 10 ** 6))).uniform(0, 3, size=n).tolist()
     return {"labels": labels, "dists": dists, "ldtype": draw(st.sampled_from(["int64", "int64", "int32"])),
             "ddtype": draw(st.sampled_from(["float64", "float64", "float32"])),
-            "mismatch": draw(st.integers(0, 9)) == 0}
+            "mismatch": draw(st.sampled_from([False] * 14 + [True]))}
 
 
 def run_find(case):
@@ -667,7 +670,8 @@ def run_part_index(case):
                 got=len(got), want=len(idx))
         for j in range(len(idx)):
             pair = got[j]
-            require(len(pair) == 2, "%s: entry is not a pair" % what, entry=repr(pair))
+            require(hasattr(pair, "__len__") and len(pair) == 2,
+                    "%s: entry is not a (trajectory, frame) pair" % what, entry=repr(pair))
             t, f = int(pair[0]), int(pair[1])
             require((t, f) == want[j], "%s: pair does not address the frame with that flat index" % what,
                     flat_index=idx[j], lengths=lengths, got=(t, f), want=want[j])
@@ -715,6 +719,10 @@ def run_part_concat(case):
             fl = np.asarray(got.flatten())
             require(np.array_equal(fl, flat), "RaggedArray.flatten() does not restore the flat array", field=name)
     starts = [sum(lengths[:t]) for t in range(len(lengths))]
+    require(len(res.center_indices) == len(idx) and
+            all(hasattr(p, "__len__") and len(p) == 2 for p in res.center_indices),
+            "partitioned center indices are not one (trajectory, frame) pair per center",
+            got=repr(list(res.center_indices)))
     back = [starts[int(t)] + int(f) for t, f in res.center_indices]
     require(back == list(idx), "sum(lengths[:traj]) + frame does not restore the flat center indices",
             got=back, want=list(idx), lengths=lengths)
@@ -828,7 +836,7 @@ def reassign_case(draw, batches=False, max_len=12):
         total_traj += ntraj
     all_lens = [len(t) for g in groups for t in g["trajs"]]
     total = sum(all_lens)
-    k = draw(st.integers(1, 5))
+    k = draw(st.integers(1, 8))
     centers = draw_center_spec(draw, k, total, 3 * n_sel, -3, 3, row_tag="frame")
     case = {"n_sel": n_sel, "groups": groups, "centers": centers,
             "centers_as": draw(st.sampled_from(["traj", "list"])), "batch_frames": None}
